@@ -16,9 +16,9 @@ PROP = "C22"
 LEVEL = "model_checking"
 TECHNIQUE = "one-step induction over a fully symbolic memory array (all array states are reachable) + BMC from reset against an ideal array; pysim replay"
 BOUNDS = {
-    "quick": "(read,write) ports in {(1,1),(2,2)}, depth 4 (also 3 with 1r2w), 2-bit rows, granularity {None,1}, and 4-bit rows with granularity 2; "
+    "quick": "(read,write) ports in {(1,1),(2,2)}, depth 4 (also 3 with 1r2w), 2-bit rows, granularity {None,1}, and 4-bit rows with granularity 2, single-granule rows (2-bit rows with granularity 2, 4-bit rows with granularity 4); "
              "induction step over all array contents, all enables/addresses/data/masks; BMC 5 cycles from reset",
-    "thorough": "ports up to (3,3), depths 2..8, widths 1..4, granularity {None,1,2}; induction step; BMC 8 cycles from reset",
+    "thorough": "ports up to (3,3), depths 2..8, widths 1..4, granularity {None,1,2} and one granule per row (2/2, 4/4, 1/1); induction step; BMC 8 cycles from reset",
 }
 OUTSIDE = ["depths/widths/port counts not enumerated", "structured (View) shapes", "memory_type other than lib.memory.Memory (the multiport memories have no comb read ports)",
            "two write calls to the same row in one cycle", "addresses >= depth"]
@@ -45,7 +45,8 @@ def _mk(mode, nr, nw, depth, width, gran, K=0):
 def configs(tier, seed):
     out = []
     if tier == "quick":
-        shapes = [(1, 1, 4, 2, None), (1, 1, 4, 2, 1), (2, 2, 4, 2, None), (2, 2, 4, 2, 1), (1, 2, 3, 2, None), (2, 1, 4, 4, 2), (1, 1, 4, 3, 1), (1, 1, 4, 4, 1)]
+        shapes = [(1, 1, 4, 2, None), (1, 1, 4, 2, 1), (2, 2, 4, 2, None), (2, 2, 4, 2, 1), (1, 2, 3, 2, None), (2, 1, 4, 4, 2), (1, 1, 4, 3, 1), (1, 1, 4, 4, 1),
+                  (1, 1, 4, 2, 2), (2, 2, 3, 4, 4)]  # one granule per row: the mask is a single bit that must still be honoured
         K = 5
     else:
         shapes = []
@@ -54,8 +55,8 @@ def configs(tier, seed):
                 for depth in (2, 3, 4, 5, 8):
                     if depth in (2, 5) and (nr + nw) % 2:
                         continue
-                    for width, gran in ((2, None), (2, 1), (4, 2), (1, None), (3, 1)):
-                        if (width, gran) in ((1, None), (3, 1)) and (nr, nw) not in ((1, 1), (2, 2)):
+                    for width, gran in ((2, None), (2, 1), (4, 2), (1, None), (3, 1), (2, 2), (4, 4), (1, 1)):
+                        if (width, gran) in ((1, None), (3, 1), (4, 4), (1, 1)) and (nr, nw) not in ((1, 1), (2, 2)):
                             continue
                         shapes.append((nr, nw, depth, width, gran))
         K = 8
